@@ -12,4 +12,5 @@ import SwcVerif.Props.C14
 #print axioms C14.chain_hyps_of_pairwise
 #print axioms C14.sum_chainRose
 #print axioms C14.chain_volume_is_union
+#print axioms C14.two_arm_volume_is_union
 #print axioms C14.lens_inside_frustum
